@@ -7,7 +7,7 @@
 From Coq Require Import List Arith Bool Lia Reals Lra Psatz ZArith.
 From NV Require Import Scalar.Ops Model.Common Model.Geom2D Proofs.Geom2DR.
 Import ListNotations.
-Open Scope R_scope.
+Local Open Scope R_scope.
 
 (* ------------------------------------------------------------------ the quantities of the statement *)
 Notation rayR := (list R * list R)%type.
